@@ -2,8 +2,8 @@
    these definitions of /repo; tools/srcfacts.py regenerates their normal-form digests on every run (coq/Gen/Src_*.v).
    Statements only. *)
 From Coq Require Import List String.
-From ME Require Import Model.SrcExpected Gen.Src_common Gen.Src_map Gen.Src_retry Gen.Src_poll Gen.Src_throttle Gen.Src_timeout Gen.Src_cos Gen.Src_helpers Gen.Src_fbool Gen.Src_sync
-  Proofs.Src_ok_common Proofs.Src_ok_map Proofs.Src_ok_retry Proofs.Src_ok_poll Proofs.Src_ok_throttle Proofs.Src_ok_timeout Proofs.Src_ok_cos Proofs.Src_ok_helpers Proofs.Src_ok_fbool Proofs.Src_ok_sync.
+From ME Require Import Model.SrcExpected Gen.Src_common Gen.Src_map Gen.Src_retry Gen.Src_poll Gen.Src_throttle Gen.Src_timeout Gen.Src_cos Gen.Src_helpers Gen.Src_fbool Gen.Src_sync Gen.Src_flat_map Gen.Src_fzip Gen.Src_fbase Gen.Src_event
+  Proofs.Src_ok_common Proofs.Src_ok_map Proofs.Src_ok_retry Proofs.Src_ok_poll Proofs.Src_ok_throttle Proofs.Src_ok_timeout Proofs.Src_ok_cos Proofs.Src_ok_helpers Proofs.Src_ok_fbool Proofs.Src_ok_sync Proofs.Src_ok_flat_map Proofs.Src_ok_fzip Proofs.Src_ok_fbase Proofs.Src_ok_event.
 
 (* more_executors/_impl/common.py *)
 Theorem c04_source_common : Src_common.facts = expected_common.
@@ -35,6 +35,18 @@ Proof. exact src_fbool_ok. Qed.
 (* more_executors/_impl/sync.py *)
 Theorem c04_source_sync : Src_sync.facts = expected_sync.
 Proof. exact src_sync_ok. Qed.
+(* more_executors/_impl/flat_map.py *)
+Theorem c04_source_flat_map : Src_flat_map.facts = expected_flat_map.
+Proof. exact src_flat_map_ok. Qed.
+(* more_executors/_impl/futures/zip.py *)
+Theorem c04_source_fzip : Src_fzip.facts = expected_fzip.
+Proof. exact src_fzip_ok. Qed.
+(* more_executors/_impl/futures/base.py *)
+Theorem c04_source_fbase : Src_fbase.facts = expected_fbase.
+Proof. exact src_fbase_ok. Qed.
+(* more_executors/_impl/event.py *)
+Theorem c04_source_event : Src_event.facts = expected_event.
+Proof. exact src_event_ok. Qed.
 
 Print Assumptions c04_source_common.
 Print Assumptions c04_source_map.
@@ -46,3 +58,7 @@ Print Assumptions c04_source_cos.
 Print Assumptions c04_source_helpers.
 Print Assumptions c04_source_fbool.
 Print Assumptions c04_source_sync.
+Print Assumptions c04_source_flat_map.
+Print Assumptions c04_source_fzip.
+Print Assumptions c04_source_fbase.
+Print Assumptions c04_source_event.
